@@ -12,7 +12,7 @@ CLAIMS = {
          "NOT covered (trusted A-GLUE): the fan-out of publish_messages to every attached subscription (async move + JoinSet), FIFO mailboxes, races between publish and create/delete, liveness of redelivery (needs the timer and a consumer). Messages::append is an assumed contract (Iterator::size_hint cannot be specified in Verus), cross-checked bounded. The clause 'every handed-out message is tracked as outstanding' of pull_messages carries C01/C04 (a message held nowhere can never be redelivered)."),
  "C02": ("proof",
          "Proved: OutstandingMessageTracker::remove and SubscriptionActor::acknowledge_messages remove exactly the named live leases from both tracker structures (representation invariant wf), leave backlog, counter and every other lease unchanged, unknown/stale/repeated ids are no-ops; the two unsafe unwrap_unchecked in take_expired are discharged from wf (no stale expiry key can resurrect an acked message); ack-id parsing is total.",
-         "Trusted: that unary and streaming acks reach the handler (async glue), other subscriptions' copies live in other actor values (Rust ownership), derived Ord/Hash of AckId/AckDeadline (A-DERIVE, validated by Kani), BTreeSet::first/pop_first specs."),
+         "The unary Acknowledge handler (async fn, whole body, bundle B2) is under contract: OK means the subscription the name denotes was handed exactly the request's ack ids in order; a malformed ack id or name is INVALID_ARGUMENT, an absent name NOT_FOUND. Trusted: that the handle forwards to the actor and that streaming acks reach the handler (async glue), other subscriptions' copies live in other actor values (Rust ownership), derived Ord/Hash of AckId/AckDeadline (A-DERIVE, validated by Kani), BTreeSet::first/pop_first specs."),
  "C03": ("proof",
          "Proved: pull_messages moves the first n backlog messages into the lease table within one actor turn, with fresh consecutive ack ids (all ids in use are below the counter, the counter strictly increases); the only exits from the lease table are ack, modify(None), expiry with deadline <= now and delete.",
          "Trusted: one actor task drains the mailbox, so turns do not interleave (tokio mpsc + single task, A-GLUE); fewer than 2^64 deliveries per subscription (A-ARITH)."),
@@ -21,16 +21,16 @@ CLAIMS = {
          "Trusted: that tokio wakes the actor at sleep_until(min deadline) and the Notify re-arming in poll_next_expired (async, A-GLUE); Instant stand-in = u64 nanoseconds, EPOCH not later than any now() (A-STUB); clock below 2^60 ns (A-ARITH)."),
  "C05": ("proof",
          "Proved: seconds -> Option<Duration> classification over all i32 (<0 INVALID_ARGUMENT, 0 nack, 1..599, >=600 capped); per-pair body of parse_deadline_modifications (lifted region) yields exactly the modification with deadline in [now+N, now+N+100ms) or the error, and the whole function returns one such modification per (ack id, seconds) pair in request order or fails as a whole with INVALID_ARGUMENT; OutstandingMessageTracker::modify equals the fold of the per-modification spec in request order (old expiry key removed, new inserted, nacked lease returned), modify_deadline appends the nacked messages to the backlog in the same turn; unknown ids are skipped.",
-         "The zip/map/collect::<Result<Vec,_>> plumbing of parse_deadline_modifications is now under contract on the whole function (one modification per pair in request order; Ok only if every pair is well-formed, the only failure is INVALID_ARGUMENT), using vstd's zip/map/collect specifications and one trusted axiom for std's `impl FromIterator<Result<A,E>> for Result<Vec<A>,E>` (all items unwrapped in order, or one of the errors); normalisation N12 binds the closure's tuple-pattern parameter by a `let`. Trusted: that the handler's `?` precedes its only state-touching call (structural), async glue."),
+         "The zip/map/collect::<Result<Vec,_>> plumbing of parse_deadline_modifications is now under contract on the whole function (one modification per pair in request order; Ok only if every pair is well-formed, the only failure is INVALID_ARGUMENT), using vstd's zip/map/collect specifications and one trusted axiom for std's `impl FromIterator<Result<A,E>> for Result<Vec<A>,E>` (all items unwrapped in order, or one of the errors); normalisation N12 binds the closure's tuple-pattern parameter by a `let`. The unary ModifyAckDeadline handler (async fn, whole body) is under contract: OK means the subscription was handed one modification per ack id, in order, each the per-pair result for the request's seconds value at one instant `now` of the call; a malformed id / negative value / malformed name is INVALID_ARGUMENT (returned before the handle is reached: the only call on the handle follows every `?` of the parsing, which the verifier checks through the postconditions at each exit), an absent name NOT_FOUND. Trusted: the handle (A-GLUE); the in-stream variant (try_stream! body) stays with the stand-ins."),
  "C08": ("proof of the sequential parts (scoped)",
-         "Proved: the id-assignment region of publish_messages returns exactly one id per submitted message in request order, id i = (topic id << 32) | (counter + 1 + i), counter advances by n; ids are strictly monotone in the counter (bit-vector lemma); pull returns a prefix of the backlog in order and post appends at the end; history lemma lemma_fifo (unbounded histories of actor turns): the sequence of first deliveries on a subscription is a prefix of the sequence of accepted posts, each post's batch contiguous and in request order - requeued messages never overtake a never-delivered one.",
+         "Proved: the Publish handler (async fn, whole body, B5) returns exactly one message id per submitted message, hands the topic every message of the request in request order and answers with the text of the ids the topic returned, in that order; the id-assignment region of publish_messages returns exactly one id per submitted message in request order, id i = (topic id << 32) | (counter + 1 + i), counter advances by n; ids are strictly monotone in the counter (bit-vector lemma); pull returns a prefix of the backlog in order and post appends at the end; history lemma lemma_fifo (unbounded histories of actor turns): the sequence of first deliveries on a subscription is a prefix of the sequence of accepted posts, each post's batch contiguous and in request order - requeued messages never overtake a never-delivered one.",
          "NOT covered: 'awaits all posts before the next publish' and equal order on every subscription (async fan-out, A-GLUE); fewer than 2^32-1 messages per topic (A-ARITH, u32 counter)."),
  "C09": ("proof of the mapping code (scoped)",
          "Proved: request -> TopicMessage -> ReceivedMessage keeps data bytes and attribute map, message_id is Display of the assigned id, one publish time; MessageId::new is injective on (topic id, counter) (bit-vector proof); topic internal ids are fresh and never reused (delete does not touch next_id); the HTTP push payload region carries base64(data), both id fields, the subscription name and (after fix 79f6033) the attributes; the unary Pull helper pull_messages maps the leases it was handed position by position (each ReceivedMessage carries the data, attributes, ids and publish time of the lease at its position).",
          "Trusted: prost / serde_json / base64 encoders, Display of u64 (A-LIB, A-STR: uninterpreted injective functions); Bytes and SystemTime stand-ins; u32 counter wrap (A-ARITH)."),
  "C10": ("proof of the map operations (scoped)",
          "Proved: State::create_topic / State::create_subscription succeed exactly when the name is absent, then insert exactly that name with a fresh increasing internal id, and leave the state unchanged on ALREADY_EXISTS; the same-project rule is decided before any state access; delegate delete is map.remove; effective ack deadline = max(seconds, 10) for all i32; TopicActor::attach_subscription never fails (the create path registers the name before the attach and has no rollback, so 'a failed create leaves nothing behind' rests on this); read-back (bundle B6): parse_push_config stores the request's endpoint (trimmed), attributes and oidc token, map_to_subscription_resource reports the stored name, topic, whole seconds of the ack deadline and push configuration, and the two compose to the identity (lemma_push_config_roundtrip, lemma_ack_deadline_roundtrip: reported deadline = max(seconds, 10) for every i32).",
-         "The lookup helpers of the handlers (get_subscription, get_topic_internal, subscription_not_found, topic_not_found, conflict) are under contract in B6: an absent name is answered with NOT_FOUND. NOT covered: linearizability across threads (parking_lot::RwLock trusted; that each wrapper holds the guard around exactly one State call is structural), 'later requests observe it' through the actors, the status mapping inside the other async handlers (gRPC scenario `namespace`). The status mapping of the two create handlers is under contract (B6, match arms of their map_err closures lifted as regions): CreateTopic / CreateSubscription answer ALREADY_EXISTS for an existing name, CreateSubscription NOT_FOUND for an absent topic and INVALID_ARGUMENT for a topic in another project."),
+         "The lookup helpers of the handlers (get_subscription, get_topic_internal, subscription_not_found, topic_not_found, conflict) are under contract in B6: an absent name is answered with NOT_FOUND. NOT covered: linearizability across threads (parking_lot::RwLock trusted; that each wrapper holds the guard around exactly one State call is structural), 'later requests observe it' through the actors, the status mapping inside the remaining async handlers (get / delete / list / pull / streaming; gRPC scenario `namespace`). The Publish, Acknowledge and ModifyAckDeadline handlers are under contract as whole async functions (B5, B2): OK only if the name parses and exists, NOT_FOUND for an absent name. The status mapping of the two create handlers is under contract (B6, match arms of their map_err closures lifted as regions): CreateTopic / CreateSubscription answer ALREADY_EXISTS for an existing name, CreateSubscription NOT_FOUND for an absent topic and INVALID_ARGUMENT for a topic in another project."),
  "C11": ("proof of the set algebra (scoped)",
          "Proved: topic actor remove_subscription removes exactly the named entry, delete clears the set, sets deleted and is idempotent, attach never overwrites; subscription delete empties backlog and leases and sets deleted, after which post/pull/ack/modify are no-ops.",
          "NOT covered: order of effects across the two actors, liveness of the Weak<Topic>, that the Weak<Topic> is dead exactly when the topic is deleted (the mapping itself is under contract in B6: live topic -> its name, dead -> the deleted marker), re-creation not re-attaching (call-graph fact)."),
